@@ -159,7 +159,8 @@ def parse_tla_set_of_notes(out):
     return sorted((k, sorted(v)) for k, v in uniq.items())
 
 
-MODULE_CONSTS = {"ApiTotalTrace": "  Full = TRUE\n", "LockTrace": "  DB <- TraceDBs\n"}
+MODULE_CONSTS = {"ApiTotalTrace": "  Full = TRUE\n", "LockTrace": "  DB <- TraceDBs\n",
+                 "CodecTrace": "  Pairs = FALSE\n  HugeSizes = FALSE\n"}
 
 
 def tlc_trace(trace_path, dev=(), module="NutsTrace", diag_line=0, timeout=900, heap="3g", sdir=None, extra_consts=""):
